@@ -219,6 +219,51 @@ func prop(c c11Case) common.Result {
 				labels[k] = 1 + ((l%(c.N+1))+c.N+1)%(c.N+1)
 			}
 			pool = append(pool, poolSig{relabel(c.Scheme, p.sig, labels), labels, p.msgs})
+		case "permuted":
+			// replay of a multi-signature with its signer labels assigned to the individual signatures in another way
+			// (same bytes, same signer SET): first the genuine one, then the permuted one, for the same message(s)
+			if len(pool) == 0 {
+				continue
+			}
+			p := pick(o.A)
+			labels := labelsOf(p.sig)
+			if len(labels) < 2 {
+				continue
+			}
+			rot := 1 + o.B%(len(labels)-1)
+			perm := make([]int, len(labels))
+			for k := range labels {
+				perm[k] = labels[(k+rot)%len(labels)]
+			}
+			ps := relabel(c.Scheme, p.sig, perm)
+			same, first := true, -1
+			for _, m := range p.msgs {
+				if first >= 0 && m != first {
+					same = false
+				}
+				first = m
+			}
+			batch := map[hotstuff.ID][]byte{}
+			for sg, m := range p.msgs {
+				batch[hotstuff.ID(sg)] = msgOf(m)
+			}
+			for round, sg := range []hotstuff.QuorumSignature{p.sig, ps} {
+				var ok1, p1, ok2, p2 bool
+				var m1, m2 string
+				if same && o.C%2 == 0 {
+					ok1, p1, m1 = call(func() error { return cached.Verify(sg, msgOf(first)) })
+					ok2, p2, m2 = call(func() error { return plain.Verify(sg, msgOf(first)) })
+				} else {
+					ok1, p1, m1 = call(func() error { return cached.BatchVerify(sg, batch) })
+					ok2, p2, m2 = call(func() error { return plain.BatchVerify(sg, batch) })
+				}
+				note(sg, ctxKey("perm", round, p.msgs, labelsOf(sg)), ok2)
+				if ok1 != ok2 || p1 != p2 {
+					return common.Fail("permuted-labels-"+fpSide(ok1), "multi-signature really signed per signer %v, labels in the order %v (genuine order %v), round %d: cached accepted=%v (%s), uncached accepted=%v (%s)\n%s",
+						p.msgs, labelsOf(sg), labels, round, ok1, m1, ok2, m2, step)
+				}
+			}
+			pool = append(pool, poolSig{ps, perm, p.msgs})
 		case "signshaped":
 			// a replica signs a message that is shaped like a one-entry batch of its own
 			who := 1 + ((o.A%c.N)+c.N)%c.N
@@ -429,7 +474,7 @@ func genCase(rt *rapid.T) c11Case {
 	}
 	c.Cap = rapid.SampledFrom([]int{1, 2, 3, 4, 5, 6, 7, 8, 100}).Draw(rt, "cap")
 	c.Verifier = rapid.IntRange(1, c.N).Draw(rt, "verifier")
-	kinds := []string{"sign", "sign", "signbatch", "combine", "relabel", "verify", "verify", "verify", "batch", "batch", "mkqc", "mktc", "mkagg", "vcert", "vcert", "vcert", "signshaped", "verifyshaped", "verifyshaped", "nilsig"}
+	kinds := []string{"sign", "sign", "signbatch", "combine", "relabel", "verify", "verify", "verify", "batch", "batch", "mkqc", "mktc", "mkagg", "vcert", "vcert", "vcert", "signshaped", "verifyshaped", "verifyshaped", "nilsig", "permuted", "permuted"}
 	maxOps := 60
 	if c.Scheme == "bls12" {
 		maxOps = 25
